@@ -303,7 +303,7 @@ fn winner(p: &[PIrq]) -> Option<PIrq> {
     p.iter().rev().find(|x| key(x) == mx).copied()
 }
 struct Pre { pc: u16, psr: u16, regs: [W; 8], ssp: W, instrs: u64, flen: usize, cands: Vec<Pend>, win: Option<PIrq>, strict: bool, fetch_ok: bool,
-             vec_ws: Vec<(u8, W, bool)>, vec_w: Option<W>, tgt_init: bool }
+             vec_ws: Vec<(u8, W, bool)>, vec_w: Option<W>, tgt_init: bool, iw: u16 }
 fn snapshot(m: &mut Machine, kb_locked: bool, st: &Setup) -> Pre {
     let cands = pending(m, kb_locked);
     let s = &m.sim;
@@ -314,7 +314,7 @@ fn snapshot(m: &mut Machine, kb_locked: bool, st: &Setup) -> Pre {
     let vec_ws = cands.iter().filter_map(|c| match c { Pend::Now(PIrq::V(v, _)) | Pend::Draw(_, PIrq::V(v, _)) => {
         let w = s.mem[0x100 + *v as u16].verif_parts(); Some((*v, w, s.mem[w.0].is_init())) } _ => None }).collect();
     Pre { pc: s.pc, psr, regs, ssp: s.verif_saved_sp().verif_parts(), instrs: s.instructions_run, flen: s.frame_stack.len() as usize,
-          cands, win: None, strict: st.strict, fetch_ok: privl || (0x3000..0xFE00).contains(&s.pc), vec_ws, vec_w: None, tgt_init: true }
+          cands, win: None, strict: st.strict, fetch_ok: privl || (0x3000..0xFE00).contains(&s.pc), vec_ws, vec_w: None, tgt_init: true, iw: s.mem[s.pc].get() }
 }
 /// after the step: settle the timers that drew a fresh count and fix the winner
 fn settle(p: &mut Pre, m: &Machine) {
@@ -380,6 +380,15 @@ fn check_step(p: &Pre, m: &Machine, out: &Outcome, obs: &Tree, stats: &EntryStat
             if p.win.is_some() { stats.gated.fetch_add(1, Relaxed); }
             if p.fetch_ok && !read_at_pc {
                 return Some(format!("no interrupt is due at pc={:#06x} psr={:#06x} (winner {:?}) but no instruction was fetched (outcome {:?}, pc now {:#06x})", p.pc, p.psr, p.win, out, s.pc));
+            }
+            // the current priority (the gate of later requests) changes only by taking an interrupt or by RTI:
+            // a TRAP instruction, virtual or through the OS, leaves PSR[10:8] alone (fetched from memory proper:
+            // at a PC in the I/O page the executed word is a device's answer, not `iw`)
+            if *out == Outcome::Ok && read_at_pc && p.pc < 0xFE00 && p.iw >> 12 == 0xF && (s.psr().get() ^ p.psr) & 0x0700 != 0 {
+                let sp0 = if p.psr & 0x8000 != 0 { p.ssp.0 } else { p.regs[6].0 };
+                if sp0.wrapping_sub(1) < 0xFE00 && sp0.wrapping_sub(2) < 0xFE00 {
+                    return Some(format!("TRAP x{:02X} at pc={:#06x} changes the current priority: PSR {:#06x} -> {:#06x} (a pending request of priority <= {} would now be taken inside the routine)", p.iw & 0xFF, p.pc, p.psr, s.psr().get(), p.psr >> 8 & 7));
+                }
             }
             None
         }
